@@ -43,7 +43,8 @@ CONFIG = {
                  'states:frozenset', 'labels:nonstring', 'labels:lookalike',
                  'atoms:absent', 'atoms:quoted', 'depth:>=50', 'logic:CTL',
                  'logic:LTL', 'logic:CTLS', 'ctls:fresh_atom_collision',
-                 'labels:spell_fresh_atoms'],
+                 'labels:spell_fresh_atoms', 'chain:AG', 'chain:EU',
+                 'chain:not'],
     'rule': ('cases = (structure with heterogeneous state names / label '
              'values, formula, logic, style); generated from seeded random '
              'structures (<=8 states) renamed through 6 state-naming schemes, '
@@ -165,6 +166,30 @@ def deep(r, logic, depth):
     return t
 
 
+def chain(r, logic, d):
+    """d nested operators of ONE kind (operator nesting depth d)."""
+    t = ('ap', r.choice(['p', 'q']))
+    kinds = ['not', 'or']
+    if logic in ('CTL', 'CTLS'):
+        kinds += ['AG', 'EU', 'EX', 'AF']
+    k = r.choice(kinds)
+    for i in range(d):
+        if k == 'not':
+            t = ('not', t)
+        elif k == 'or':
+            t = ('or', t, ('ap', 'q'))
+        elif k == 'AG':
+            t = ('A', ('G', t))
+        elif k == 'AF':
+            t = ('A', ('F', t))
+        elif k == 'EU':
+            t = ('E', ('U', ('ap', 'q'), t))
+        else:
+            t = ('E', ('X', t))
+    LOG.sig['chain:' + k] += 1
+    return t
+
+
 def make_formula(r, logic):
     """(tree, flags)"""
     flags = set()
@@ -178,7 +203,7 @@ def make_formula(r, logic):
         flags.add('atoms:quoted')
     if r.random() < 0.12:
         d = r.choice([50, 70, 100])
-        t = deep(r, logic, d)
+        t = deep(r, logic, d) if r.random() < 0.5 else chain(r, logic, d)
         flags.add('depth:>=50')
     elif logic == 'CTL':
         t = gen.random_ctl(r, r.randint(1, 4), atoms=atoms)
